@@ -450,6 +450,10 @@ func isRapidInternal(r any) bool {
 // VERIF_REPLAY (replay).  id is the property id, the test name identifies the
 // sub-check.
 func Run(t *testing.T, id string, prop func(g *G)) {
+	if capturing != nil { // see Capture: the fuzz engine only wants the property, not a run
+		capturing.ID, capturing.Prop = id, prop
+		return
+	}
 	t.Helper()
 	test := t.Name()
 	if path := os.Getenv("VERIF_REPLAY"); path != "" {
@@ -467,20 +471,53 @@ func Run(t *testing.T, id string, prop func(g *G)) {
 		RunRecord(t, id, r, prop)
 		return
 	}
-	rapid.Check(t, func(rt *rapid.T) {
-		g := &G{rt: rt, id: id, test: test, classes: map[string]int{}}
-		defer func() {
-			if r := recover(); r != nil {
-				if _, ok := r.(failure); !ok && !isRapidInternal(r) && !g.failed {
-					// a Go panic inside the code under test (or the harness)
-					g.fail(fmt.Sprintf("panic: %v\n%s", r, trimStack(debug.Stack())))
-				}
-				panic(r)
+	rapid.Check(t, func(rt *rapid.T) { runRapid(rt, id, test, prop) })
+}
+
+func runRapid(rt *rapid.T, id, test string, prop func(g *G)) {
+	g := &G{rt: rt, id: id, test: test, classes: map[string]int{}}
+	defer func() {
+		if r := recover(); r != nil {
+			if _, ok := r.(failure); !ok && !isRapidInternal(r) && !g.failed {
+				// a Go panic inside the code under test (or the harness)
+				g.fail(fmt.Sprintf("panic: %v\n%s", r, trimStack(debug.Stack())))
 			}
-		}()
-		prop(g)
-		stats.commit(g)
-	})
+			panic(r)
+		}
+	}()
+	prop(g)
+	stats.commit(g)
+}
+
+// Captured is a property taken out of its Test function (see Capture).
+type Captured struct {
+	ID   string
+	Prop func(g *G)
+}
+
+var capturing *Captured
+
+// Capture calls a Test function of the property package in a mode in which Run
+// records the property instead of running it, and returns that property.  The
+// coverage-guided engine (Go's native fuzzer driving rapid through
+// rapid.MakeFuzz) uses it to run the very same property function, with the same
+// oracle and the same recorded draws, as the rapid search.
+func Capture(testFn func(*testing.T)) (c Captured) {
+	capturing = &c
+	defer func() { capturing = nil }()
+	testFn(nil)
+	return
+}
+
+// Fuzz runs a captured property under Go's native fuzzer: the fuzzer's byte
+// string is rapid's source of randomness (rapid.MakeFuzz), so every draw of the
+// property is a function of the input, coverage feedback steers the input, and
+// a failing execution writes the same library-free record as a rapid failure
+// (test is the name of the Test function, which is what replays the record).
+func Fuzz(f *testing.F, test string, c Captured) {
+	f.Add([]byte{})
+	f.Add([]byte{0x01, 0x23, 0x45, 0x67, 0x89, 0xab, 0xcd, 0xef, 0x10, 0x32, 0x54, 0x76, 0x98, 0xba, 0xdc, 0xfe})
+	f.Fuzz(rapid.MakeFuzz(func(rt *rapid.T) { runRapid(rt, c.ID, test, c.Prop) }))
 }
 
 // RunRecord replays one record without rapid.
